@@ -20,6 +20,7 @@ func init() {
 		ruleA4(c, "C09.A4")
 		ruleA5(c, "C09.A5")
 		ruleW2(c, "C09.A6")
+		ruleSlot(c, "C09.A7")
 	}
 }
 
